@@ -100,6 +100,12 @@ Definition run_compute (w : wire) : wire :=
        let W := map (fun p => {| c_reads := fst (fst p); c_writes := snd (fst p); c_fresh := snd p |}) (combine code_compute_catalogue fr) in
        flat_map (fun r => [fst r; snd r]) (c_trace init W ops init)).
 
+(* ---- machine 8: several geometries, point-locating assemblies; catalogue (reads, writes, fresh result) on the wire ---- *)
+Definition run_multi (w : wire) : wire :=
+  run_dec (do init <- getVec; do cat <- getList (do rs <- getList getN; do ws <- getList getN; do f <- getZ; ret {| c_reads := rs; c_writes := ws; c_fresh := f |});
+           do ops <- getList getN; ret (init, cat, ops)) w
+    (fun '(init, cat, ops) => flat_map (fun r => [fst r; snd r]) (c_trace init cat ops init)).
+
 (* ---- machine 7: reader registry; kinds 0 ok, 1 fails without leaving the stream open, 2 fails with the stream open ---- *)
 Definition getFkind : dec (nat * fkind) :=
   do fm <- getN; do k <- getN; do st <- getZ;
@@ -117,5 +123,6 @@ Definition run_c17 (w : wire) : wire :=
   | 5 :: w' => run_linop w'
   | 6 :: w' => run_compute w'
   | 7 :: w' => run_registry w'
+  | 8 :: w' => run_multi w'
   | _ => [-1]
   end.
